@@ -631,17 +631,55 @@ def coq_opt_pair(val):
     return '(@None (N * N))' if val is None else '(Some (%d, %d))' % (val[0], val[1])
 
 
-def coq_bundle(spec, tab, size):
+REPORT_SIZE_BAND = (60, 200)   # every status report this agent builds for the harness' EIDs encodes to 60..200 octets
+FRAG_MARGIN = 100              # slack around the exact fragmentation budget (C05 owns the exact arithmetic)
+
+
+class AmbiguousCase(Exception):
+    ''' The case has an MTU inside a band where only the exact size arithmetic (C05) decides. '''
+
+
+def mtu_class_report(mtu):
+    ''' Model field t_rpt: 0 report sent whole, 1 fragmentation infeasible, 2 fragmented. '''
+    if mtu is None or mtu >= REPORT_SIZE_BAND[1]:
+        return 0
+    if mtu < REPORT_SIZE_BAND[0]:
+        return 1
+    raise AmbiguousCase('route MTU %d inside the status-report size band' % mtu)
+
+
+def frag_feasible(case, spec, size):
+    ''' Model field b_fragfeas for the first TX route matching the destination (evaluated with re here,
+    first-match again by the model): True when every fragment clearly fits, False when clearly not. '''
+    import re
+    paylen = len(spec_for_encode(spec).get('payload', b''))
+    for item in case['tx_routes']:
+        if re.compile(item['pattern']).match(spec.get('dest') or 'dtn:none') is not None:
+            mtu = item.get('mtu')
+            if mtu is None:
+                return True
+            if size <= mtu < size + FRAG_MARGIN:
+                raise AmbiguousCase('MTU %d within %d of the bundle size %d' % (mtu, FRAG_MARGIN, size))
+            hdr = size - paylen
+            if mtu >= hdr + FRAG_MARGIN:
+                return True
+            if mtu < hdr:
+                return False
+            raise AmbiguousCase('MTU %d inside the header band of a %d-octet bundle' % (mtu, size))
+    return True
+
+
+def coq_bundle(spec, tab, size, fragfeas=True):
     flags = int(spec.get('flags', 0)) & ~FLAG_IS_FRAGMENT
     payload = spec_for_encode(spec).get('payload', b'')
     bad = set(spec.get('bad_crc', ()))
     sec = spec.get('sec')
-    return '(mkBundle %d %d %d %d %d %s %d %d %s %s %d %d true)' % (
+    return '(mkBundle %d %d %d %d %d %s %d %d %s %s %d %d %s)' % (
         tab.get(spec.get('src')), tab.get(spec.get('dest')), tab.get(spec.get('report_to')),
         spec.get('time', 0), spec.get('seq', 0), coq_opt_pair(spec.get('frag')), flags, len(payload),
         'false' if bad else 'true',
         '(@None N)' if sec is None else '(Some %d)' % sec,
-        spec.get('prep', 0), size)
+        spec.get('prep', 0), size, 'true' if fragfeas else 'false')
 
 
 def coq_case(case):
@@ -661,8 +699,8 @@ def coq_case(case):
     for (idx, item) in enumerate(case['tx_routes']):
         pid = 1000 + idx
         mtu = item.get('mtu')
-        tx_terms.append('(mkTx %d %s %s)' % (pid, 'true' if item.get('cl_type', 'fake') == 'fake' else 'false',
-                                             '(@None N)' if mtu is None else '(Some %d)' % mtu))
+        tx_terms.append('(mkTx %d %s %s %d)' % (pid, 'true' if item.get('cl_type', 'fake') == 'fake' else 'false',
+                                                '(@None N)' if mtu is None else '(Some %d)' % mtu, mtu_class_report(mtu)))
         comp = re.compile(item['pattern'])
         for eid in universe:
             if comp.match(eid) is not None:
@@ -670,7 +708,7 @@ def coq_case(case):
     bundles = []
     for spec in case['hist']:
         size = len(encode_bundle(spec_for_encode(spec)))
-        bundles.append(coq_bundle(spec, tab, size))
+        bundles.append(coq_bundle(spec, tab, size, frag_feasible(case, spec, size)))
 
     def lst(items, typ):
         return '(@nil %s)' % typ if not items else '[' + '; '.join(items) + ']'
@@ -732,12 +770,30 @@ def canon_event(evt, tab):
     return [97, 0]
 
 
-def canon_impl(drv, obs_list, tab):
+def collapse_fragments(events, was_fragment):
+    ''' Fragments the agent created for one bundle (consecutive transmissions with the same first three
+    identity components, destination and route, while the input itself was not a fragment) become ONE
+    event [2, src, time, seq, 0, 0, 0, dst, route]; their number and sizes are C05's subject. '''
+    out = []
+    for evt in events:
+        if evt[0] == 1 and evt[4] == 1 and not was_fragment:
+            merged = [2] + evt[1:4] + [0, 0, 0] + evt[7:9]
+            if out and out[-1] == merged:
+                continue
+            out.append(merged)
+        else:
+            out.append(evt)
+    return out
+
+
+def canon_impl(drv, obs_list, tab, specs=None):
     ''' Observations of a whole case in the shape printed by BpAgent.run_render, with the per-input
     processings flattened (the model result is flattened the same way by canon_model). '''
     per_input = []
-    for obs in obs_list:
-        per_input.append(dict(events=[canon_event(evt, tab) for evt in obs['events']], calls=len(obs['actions'])))
+    for (idx, obs) in enumerate(obs_list):
+        events = [canon_event(evt, tab) for evt in obs['events']]
+        was_fragment = bool(specs and specs[idx].get('frag') is not None)
+        per_input.append(dict(events=collapse_fragments(events, was_fragment), calls=len(obs['actions'])))
     seen = []
     for ident in drv.agent._seen_bundle_ident:
         ident = list(ident)
